@@ -23,7 +23,7 @@ use crate::rng::Rng;
 use zipora::algorithms::suffix_array::{
     EnhancedSuffixArray as AEsa, LcpArray, SuffixArray, SuffixArrayAlgorithm as Alg, SuffixArrayBuilder, SuffixArrayConfig as ACfg,
 };
-use zipora::compression::dict_zip::dictionary::{SuffixArrayDictionary, SuffixArrayDictionaryConfig};
+use zipora::compression::dict_zip::dictionary::{ConcurrentSuffixArrayDictionary, SuffixArrayDictionary, SuffixArrayDictionaryConfig};
 use zipora::compression::suffix_array::{SuffixArrayCompressor, SuffixArrayConfig as CCfg};
 
 fn bad(oracle: &str, d: String) -> Fail { Fail { oracle: oracle.to_string(), detail: d } }
@@ -778,6 +778,172 @@ fn case_dict_huge(c: &mut Case, name: &str, fam: &str) -> Res {
 }
 
 // ------------------------------------------------------------------------------------------------------------------
+// gap families (`gap_*` generators): the PA-Zip dictionary after a state change or through another entry point must still be the exact
+// matcher over the same text.  One oracle for all of them: the brute-force `DictOracle` (the model `case_dict` uses).
+//   dict_io/{default,cfg,sais}    serialize -> deserialize, save_to_file -> load_from_file: the loaded dictionary (text, rebuilt suffix array,
+//                                 min/max pattern length) answers every query exactly; also data(), dictionary_size(), MatchStatus::match_count
+//   dict_opt/{default,cfg,sais}   reset_stats + optimize_cache (mutations) do not change any answer
+//   dict_conc/{default,cfg}       ConcurrentSuffixArrayDictionary::{new,find_longest_match} == the model
+// `Err` from serialize / deserialize / save / load / optimize_cache / validate is a refusal (note), never a verdict.
+// ------------------------------------------------------------------------------------------------------------------
+fn gap_cfg(c: &mut Case, name: &str, text: &[u8]) -> SuffixArrayDictionaryConfig {
+    let mut cfg = SuffixArrayDictionaryConfig::default();
+    if name != "default" {
+        cfg.min_pattern_length = *c.rng.pick(&[1usize, 2, 3, 4, 8]); cfg.max_pattern_length = 1 << 24; cfg.min_frequency = *c.rng.pick(&[1u32, 2, 4]);
+        cfg.max_bfs_depth = *c.rng.pick(&[0u32, 1, 3, 6]); cfg.use_memory_pool = c.rng.bool();
+        cfg.suffix_array_config.algorithm = if name == "sais" { Alg::SAIS } else { *c.rng.pick(&[Alg::DC3, Alg::DivSufSort, Alg::LarssonSadakane, Alg::Adaptive]) };
+    }
+    // DfaCache construction is quadratic in the number of cached patterns (ZiporaTrie::update_stats walks all nodes on every insert): keep the cache small on big dictionaries
+    if text.len() >= 9_000 { cfg.min_frequency = cfg.min_frequency.max(32); }
+    c.input_str("cfg", &format!("min={} max={} freq={} bfs={} pool={} alg={:?}", cfg.min_pattern_length, cfg.max_pattern_length, cfg.min_frequency, cfg.max_bfs_depth, cfg.use_memory_pool, cfg.suffix_array_config.algorithm));
+    tag_for_cfg(c, &cfg.suffix_array_config.clone(), text);
+    cfg
+}
+/// (input, position) pairs: substrings of the dictionary, substrings + 1 byte, related and unrelated bytes
+fn gap_queries(c: &mut Case, text: &[u8], nq: usize, maxq: usize) -> Vec<(Vec<u8>, usize)> {
+    let n = text.len(); let mut out = vec![];
+    for qi in 0..nq {
+        let qlen = 1 + c.rng.usize_below(maxq);
+        let input: Vec<u8> = match qi % 5 { 0 if n > 0 => { let a = c.rng.usize_below(n); text[a..(a + qlen).min(n)].to_vec() }
+            1 if n > 0 => { let a = c.rng.usize_below(n); let mut t = text[a..(a + qlen).min(n)].to_vec(); t.push(c.rng.next() as u8); t }
+            4 => c.rng.bytes(qlen.min(8)),
+            _ => gen::related_bytes(&mut c.rng, text, qlen) };
+        if input.is_empty() { continue; }
+        let pos = if c.rng.chance(1, 3) { c.rng.usize_below(input.len()) } else { 0 };
+        out.push((input, pos));
+    }
+    out
+}
+/// all matching entry points of `d` against the brute-force model; `st` names the state of the dictionary (it prefixes the oracle class)
+fn gap_check_dict(c: &mut Case, d: &mut SuffixArrayDictionary, o: &DictOracle, minl: usize, maxl: usize, qs: &[(Vec<u8>, usize)], st: &str) -> Res {
+    let text = &o.text; let n = text.len();
+    ensure!(d.dictionary_text() == &text[..] && d.data() == &text[..], format!("{st}:dict_text"), "{st}: dictionary_text()/data() differ from the training data (len {} / {} vs {n})", d.dictionary_text().len(), d.data().len());
+    ensure!(d.dictionary_size() == n, format!("{st}:dict_text"), "{st}: dictionary_size()={} want {n}", d.dictionary_size());
+    for (input, pos) in qs {
+        let (pos, q) = (*pos, &input[*pos..]); let want = o.longest(q);
+        let got = match catch(|| d.find_longest_match(input, pos, usize::MAX)) { Ok(Ok(x)) => x, Ok(Err(e)) => return Err(bad(&format!("{st}:dict_longest_err"), format!("{st}: find_longest_match failed: {e}"))), Err(p) => return Err(bad(&p.class(), format!("{st}: find_longest_match panicked at {}: {}; dict={} q={}", p.loc, p.msg, show(text), show(q)))) };
+        match &got {
+            Some(m) => {
+                ensure!(m.dict_position + m.length <= n && m.length <= q.len() && text[m.dict_position..m.dict_position + m.length] == q[..m.length], format!("{st}:dict_longest_unsound"),
+                    "{st}: find_longest_match reports length {} at dict position {} but the bytes differ / run out; dict={} q={}", m.length, m.dict_position, show(text), show(q));
+                ensure!(m.length == want && m.length >= minl, format!("{st}:dict_longest_len"), "{st}: find_longest_match length {} but brute force finds {want} (min {minl}); dict={} q={}", m.length, show(text), show(q));
+                ensure!(m.input_position == pos, format!("{st}:dict_longest_pos"), "{st}: input_position {} want {pos}", m.input_position);
+                c.note("dict_match", 1);
+            }
+            None => { ensure!(want < minl, format!("{st}:dict_longest_len"), "{st}: find_longest_match found nothing but the dictionary holds a match of length {want} (>= min {minl}); dict={} q={}", show(text), show(q)); c.note("dict_nomatch", 1); }
+        }
+        // a finite max_length: the documentation only says "maximum match length to consider" -> note, no verdict
+        if want >= 2 { let cap = 1 + c.rng.usize_below(want - 1);
+            if let Ok(Ok(Some(m))) = catch(|| d.find_longest_match(input, pos, cap)) { if m.length > cap { c.note("max_length_exceeded", 1); } else { c.note("max_length_respected", 1); } } }
+        let s = match catch(|| d.da_match_max_length(q)) { Ok(s) => s, Err(p) => return Err(bad(&p.class(), format!("{st}: da_match_max_length panicked at {}: {}", p.loc, p.msg))) };
+        ensure!(s.depth == want, format!("{st}:dict_status_depth"), "{st}: da_match_max_length depth {} want {want}; dict={} q={}", s.depth, show(text), show(q));
+        if n > 0 {
+            let (lo, hi) = o.range(&q[..want]);
+            ensure!((s.lo, s.hi) == (lo, hi), format!("{st}:dict_status_range"), "{st}: da_match_max_length range ({},{}) want ({lo},{hi}) for prefix of length {want}; dict={} q={}", s.lo, s.hi, show(text), show(q));
+            // match_count == number of occurrences of the matched prefix (== the width of the true rank range)
+            let occ = if want == 0 { n } else { scan(text, &q[..want]).len() };
+            ensure!(s.match_count() == occ && s.is_empty() == (occ == 0), format!("{st}:dict_match_count"), "{st}: MatchStatus({},{},{}).match_count()={} but the matched prefix occurs {occ} times; dict={} q={}", s.lo, s.hi, s.depth, s.match_count(), show(text), show(q));
+        } else { ensure!(s.match_count() == 0, format!("{st}:dict_match_count"), "{st}: match_count()={} on an empty dictionary", s.match_count()); }
+        c.ev(3);
+        let plen = (minl + c.rng.usize_below(6)).min(q.len()); let pat = &q[..plen];
+        if plen >= minl && plen <= maxl {
+            let occ = scan(text, pat);
+            let ms = match catch(|| d.find_all_matches(pat, usize::MAX)) { Ok(Ok(x)) => x, Ok(Err(e)) => return Err(bad(&format!("{st}:dict_find_all_err"), format!("{st}: find_all_matches failed: {e}"))), Err(p) => return Err(bad(&p.class(), format!("{st}: find_all_matches panicked at {}: {}", p.loc, p.msg))) };
+            let mut g: Vec<usize> = ms.iter().map(|m| m.dict_position).collect(); g.sort();
+            ensure!(g == occ && ms.iter().all(|m| m.length == plen), format!("{st}:dict_find_all"), "{st}: find_all_matches({}) = {:?}.. ({}) but scan finds {:?}.. ({}); dict={}", show(pat), &g[..g.len().min(10)], g.len(), &occ[..occ.len().min(10)], occ.len(), show(text));
+            c.ev(1);
+        }
+    }
+    Ok(())
+}
+/// dictionaries around the Adaptive threshold (10 000) that every construction algorithm sorts quickly: random over 4 / 16 / 256 symbols, or X c X d
+fn gap_big_text(r: &mut Rng) -> Vec<u8> {
+    let l = *r.pick(&[9_999usize, 10_000, 10_001, 12_000]);
+    match r.below(4) { 0 => { let a = alphabet(r, 4); (0..l).map(|_| *r.pick(&a)).collect() } 1 => { let a = alphabet(r, 16); (0..l).map(|_| *r.pick(&a)).collect() } 2 => r.bytes(l),
+        _ => { let a = alphabet(r, 8); let x: Vec<u8> = (0..l / 2 - 1).map(|_| *r.pick(&a)).collect(); let mut t = x.clone(); t.push(r.next() as u8); t.extend_from_slice(&x); t.push(r.next() as u8); t } }
+}
+fn gap_new_dict(text: &[u8], cfg: SuffixArrayDictionaryConfig) -> Result<SuffixArrayDictionary, Fail> {
+    match catch(|| SuffixArrayDictionary::new(text, cfg)) { Ok(Ok(d)) => Ok(d), Ok(Err(e)) => Err(bad("ctor_err", format!("SuffixArrayDictionary::new failed: {e}; text={}", show(text)))), Err(p) => Err(bad(&p.class(), format!("SuffixArrayDictionary::new panicked at {}: {}; text={}", p.loc, p.msg, show(text)))) }
+}
+
+fn case_dict_io(c: &mut Case, name: &str, text: Vec<u8>) -> Res {
+    c.input("dict", &text); let n = text.len(); len_note(c, n);
+    let cfg = gap_cfg(c, name, &text); let (minl, maxl) = (cfg.min_pattern_length, cfg.max_pattern_length);
+    // the loaded dictionary rebuilds its suffix array with SuffixArray::new (default configuration)
+    tag_for_cfg(c, &ACfg::default(), &text);
+    let mut d = gap_new_dict(&text, cfg)?;
+    let o = DictOracle { sa: naive_sa(&text), text: text.clone() };
+    let qs = gap_queries(c, &text, 8, 300);
+    match catch(|| d.validate()) { Ok(Ok(())) => c.note("validate_ok", 1), Ok(Err(_)) => c.note("validate_err", 1), Err(p) => return Err(bad(&p.class(), format!("validate panicked at {}: {}", p.loc, p.msg))) }
+    gap_check_dict(c, &mut d, &o, minl, maxl, &qs, "built")?;
+    // serialize -> deserialize
+    let bytes = match catch(|| d.serialize()) { Ok(Ok(b)) => b, Ok(Err(_)) => { c.note("serialize_refused", 1); return Ok(()); } Err(p) => return Err(bad(&p.class(), format!("serialize panicked at {}: {}; dict={}", p.loc, p.msg, show(&text)))) };
+    match catch(|| SuffixArrayDictionary::deserialize(&bytes)) {
+        Ok(Ok(mut d2)) => { c.note("deserialize_ok", 1);
+            ensure!(d2.config().min_pattern_length == minl && d2.config().max_pattern_length == maxl, "loaded:dict_cfg", "deserialize: pattern length limits ({},{}) want ({minl},{maxl})", d2.config().min_pattern_length, d2.config().max_pattern_length);
+            gap_check_dict(c, &mut d2, &o, minl, maxl, &qs, "loaded")?;
+            // the original is unaffected by having been serialized
+            gap_check_dict(c, &mut d, &o, minl, maxl, &qs[..qs.len().min(2)], "built")?; }
+        Ok(Err(_)) => c.note("deserialize_refused", 1),
+        Err(p) => return Err(bad(&p.class(), format!("deserialize panicked at {}: {}; dict={}", p.loc, p.msg, show(&text)))),
+    }
+    // save_to_file -> load_from_file
+    let dir = match tempfile::tempdir() { Ok(d) => d, Err(e) => return crate::ctx::inconclusive(format!("tempdir: {e}")) };
+    let path = dir.path().join("dict.bin");
+    match catch(|| d.save_to_file(&path)) { Ok(Ok(())) => {} Ok(Err(_)) => { c.note("save_refused", 1); return Ok(()); } Err(p) => return Err(bad(&p.class(), format!("save_to_file panicked at {}: {}", p.loc, p.msg))) }
+    match catch(|| SuffixArrayDictionary::load_from_file(&path)) {
+        Ok(Ok(mut d3)) => { c.note("load_ok", 1); gap_check_dict(c, &mut d3, &o, minl, maxl, &qs, "loaded")?; }
+        Ok(Err(_)) => c.note("load_refused", 1),
+        Err(p) => return Err(bad(&p.class(), format!("load_from_file panicked at {}: {}; dict={}", p.loc, p.msg, show(&text)))),
+    }
+    // truncated / foreign bytes: the API has an error channel, so a panic is a violation; whatever loads must hold SOME text it answers exactly for
+    // (not asserted: documentation says nothing about corrupt input beyond the Result) -> only the no-panic part is a verdict
+    if !bytes.is_empty() { let cut = c.rng.usize_below(bytes.len());
+        match catch(|| SuffixArrayDictionary::deserialize(&bytes[..cut]).is_ok()) { Ok(ok) => c.note(if ok { "truncated_loaded" } else { "truncated_refused" }, 1), Err(p) => return Err(bad(&p.class(), format!("deserialize of a truncated image ({cut} of {} bytes) panicked at {}: {}", bytes.len(), p.loc, p.msg))) } }
+    Ok(())
+}
+
+fn case_dict_opt(c: &mut Case, name: &str, text: Vec<u8>) -> Res {
+    c.input("dict", &text); let n = text.len(); len_note(c, n);
+    let cfg = gap_cfg(c, name, &text); let (minl, maxl, minf) = (cfg.min_pattern_length, cfg.max_pattern_length, cfg.min_frequency);
+    let mut d = gap_new_dict(&text, cfg)?;
+    let o = DictOracle { sa: naive_sa(&text), text: text.clone() };
+    let qs = gap_queries(c, &text, 8, 300);
+    gap_check_dict(c, &mut d, &o, minl, maxl, &qs[..qs.len().min(3)], "built")?;     // warms the statistics
+    if let Err(p) = catch(|| d.reset_stats()) { return Err(bad(&p.class(), format!("reset_stats panicked at {}: {}", p.loc, p.msg))); }
+    gap_check_dict(c, &mut d, &o, minl, maxl, &qs, "after_reset")?;
+    for round in 0..2 {
+        match catch(|| d.optimize_cache()) { Ok(Ok(())) => c.note("optimize_ok", 1), Ok(Err(_)) => c.note("optimize_refused", 1), Err(p) => return Err(bad(&p.class(), format!("optimize_cache (round {round}, min_frequency {minf}) panicked at {}: {}; dict={}", p.loc, p.msg, show(&text)))) }
+        gap_check_dict(c, &mut d, &o, minl, maxl, &qs, "optimized")?;
+    }
+    match catch(|| d.validate()) { Ok(Ok(())) => c.note("validate_ok", 1), Ok(Err(_)) => c.note("validate_err", 1), Err(p) => return Err(bad(&p.class(), format!("validate panicked at {}: {}", p.loc, p.msg))) }
+    // a clone is the same matcher
+    let mut d2 = d.clone(); gap_check_dict(c, &mut d2, &o, minl, maxl, &qs[..qs.len().min(3)], "cloned")?;
+    Ok(())
+}
+
+fn case_dict_conc(c: &mut Case, name: &str, text: Vec<u8>) -> Res {
+    c.input("dict", &text); let n = text.len(); len_note(c, n);
+    let cfg = gap_cfg(c, name, &text); let minl = cfg.min_pattern_length;
+    let d = match catch(|| ConcurrentSuffixArrayDictionary::new(&text, cfg)) { Ok(Ok(d)) => d, Ok(Err(e)) => return Err(bad("ctor_err", format!("ConcurrentSuffixArrayDictionary::new failed: {e}; text={}", show(&text)))), Err(p) => return Err(bad(&p.class(), format!("ConcurrentSuffixArrayDictionary::new panicked at {}: {}; text={}", p.loc, p.msg, show(&text)))) };
+    let o = DictOracle { sa: naive_sa(&text), text: text.clone() };
+    let qs = gap_queries(c, &text, 12, 300);
+    for (input, pos) in &qs {
+        let (pos, q) = (*pos, &input[*pos..]); let want = o.longest(q);
+        let got = match catch(|| d.find_longest_match(input, pos, usize::MAX)) { Ok(Ok(x)) => x, Ok(Err(e)) => return Err(bad("conc:dict_longest_err", format!("concurrent find_longest_match failed: {e}"))), Err(p) => return Err(bad(&p.class(), format!("concurrent find_longest_match panicked at {}: {}; dict={} q={}", p.loc, p.msg, show(&text), show(q)))) };
+        match &got {
+            Some(m) => {
+                ensure!(m.dict_position + m.length <= n && m.length <= q.len() && text[m.dict_position..m.dict_position + m.length] == q[..m.length], "conc:dict_longest_unsound", "concurrent find_longest_match reports length {} at dict position {} but the bytes differ / run out; dict={} q={}", m.length, m.dict_position, show(&text), show(q));
+                ensure!(m.length == want && m.length >= minl && m.input_position == pos, "conc:dict_longest_len", "concurrent find_longest_match (length {}, input_position {}) but brute force finds {want} at {pos} (min {minl}); dict={} q={}", m.length, m.input_position, show(&text), show(q));
+                c.note("dict_match", 1); }
+            None => { ensure!(want < minl, "conc:dict_longest_len", "concurrent find_longest_match found nothing but the dictionary holds a match of length {want} (>= min {minl}); dict={} q={}", show(&text), show(q)); c.note("dict_nomatch", 1); }
+        }
+        c.ev(1);
+    }
+    Ok(())
+}
+
+// ------------------------------------------------------------------------------------------------------------------
 pub fn run(ctx: &mut Ctx) {
     let exh_max = if ctx.quick() || ctx.pinned { 6 } else { 9 };   // lengths 0..=3 are the DESIGN's small scope; 4.. extend it
     let algs = ["sais", "dc3", "divsufsort", "ls", "adaptive"];
@@ -851,4 +1017,20 @@ pub fn run(ctx: &mut Ctx) {
             if ["huge_xcxd", "huge_akb", "huge_runs"].contains(fam) { for k in ["default", "cfg", "sais"] { ctx.case(&format!("dict/{k}"), fam, idx, |c| case_dict_huge(c, k, fam)); } }
         }
     }
+    // ---- gap families: dictionary persistence, cache optimisation, concurrent wrapper (new targets, new generators)
+    let gap_kinds: [(&str, &[&str]); 3] = [("dict_io", &["default", "cfg", "sais"]), ("dict_opt", &["default", "cfg", "sais"]), ("dict_conc", &["default", "cfg"])];
+    let gap_case = |c: &mut Case, kind: &str, k: &str, t: Vec<u8>| -> Res { match kind { "dict_io" => case_dict_io(c, k, t), "dict_opt" => case_dict_opt(c, k, t), _ => case_dict_conc(c, k, t) } };
+    for len in 0..=(if ctx.quick() || ctx.pinned { 4 } else { 7 }) {
+        let g = format!("gap_exhaustive_abc_len{len}");
+        for idx in 0..pow3(len) { for (kind, ks) in gap_kinds.iter() { for k in ks.iter() { ctx.case(&format!("{kind}/{k}"), &g, idx, |c| { c.note("exhaustive", 1); gap_case(c, kind, k, exh_text(len, idx)) }); } } }
+    }
+    for idx in 0..WITNESS.len() as u64 { for (kind, ks) in gap_kinds.iter() { for k in ks.iter() { ctx.case(&format!("{kind}/{k}"), "gap_witness", idx, |c| gap_case(c, kind, k, WITNESS[idx as usize].to_vec())); } } }
+    let gap_per = ctx.n(40, 1200) as u64;
+    for fam in FAMS {
+        if *fam == "big" { continue; }
+        let g = format!("gap_{fam}");
+        for idx in 0..gap_per { for (kind, ks) in gap_kinds.iter() { for k in ks.iter() { ctx.case(&format!("{kind}/{k}"), &g, idx, |c| { let t = text_of(&mut c.rng, fam, 800); gap_case(c, kind, k, t) }); } } }
+    }
+    // one dictionary above the Adaptive threshold per target
+    for (kind, ks) in gap_kinds.iter() { for k in ks.iter() { for idx in 0..ctx.n(1, 12) as u64 { ctx.case(&format!("{kind}/{k}"), "gap_big", idx, |c| { let t = gap_big_text(&mut c.rng); gap_case(c, kind, k, t) }); } } }
 }
